@@ -2,6 +2,7 @@ package inputx
 
 import (
 	"fmt"
+	"sync"
 	"net/http"
 	"net/http/httptest"
 	"sort"
@@ -129,11 +130,73 @@ func (j *C13TransportJob) RunFrom(start int, deadline time.Time) *runner.JobResu
 		}
 		_ = plugin.Stop()
 	}
+	// one worker, several hand-offs in a row: the receiver of one message must not colour the next
+	if start <= len(items) && (deadline.IsZero() || time.Now().Before(deadline)) {
+		runner.TraceItem(j.Name(), len(items), "C13:transport:http:sequence", "three hand-offs in a row through one http transport worker")
+		res.Executions++
+		type seen struct {
+			n    int
+			cred string
+		}
+		var mu sync.Mutex
+		got := map[string]*seen{}
+		mk := func(name string) *httptest.Server {
+			got[name] = &seen{}
+			return httptest.NewServer(http.HandlerFunc(func(w http.ResponseWriter, r *http.Request) {
+				mu.Lock()
+				got[name].n++
+				got[name].cred = r.Header.Get("X-Cred")
+				mu.Unlock()
+				w.WriteHeader(200)
+			}))
+		}
+		s1, s2 := mk("first"), mk("second")
+		defer s1.Close()
+		defer s2.Close()
+		p, err := httpplugin.New(nil, m, &httpplugin.Config{Size: 4, Workers: 1, Timeout: 300 * time.Millisecond})
+		if err != nil {
+			res.HarnessErr = err.Error()
+			return res
+		}
+		_ = p.Start(make(chan error, 1))
+		send := func(data string) string {
+			done := make(chan string, 2)
+			if !p.Enqueue(&aio.Message{Type: message.Invoke, Data: []byte(data), Body: []byte(`{"x":1}`), Done: func(ok bool, err error) { done <- fmt.Sprintf("done(%v)", ok) }}) {
+				return "queue-refused"
+			}
+			select {
+			case c := <-done:
+				return c
+			case <-time.After(3 * time.Second):
+				return "no-completion"
+			}
+		}
+		r1 := send(fmt.Sprintf(`{"url":%q,"headers":{"X-Cred":"secret-of-first"}}`, s1.URL))
+		r2 := send(`{"headers":{}}`)
+		r3 := send(fmt.Sprintf(`{"url":%q}`, s2.URL))
+		_ = p.Stop()
+		mu.Lock()
+		n1, n2, cred2 := got["first"].n, got["second"].n, got["second"].cred
+		mu.Unlock()
+		outcomes[fmt.Sprintf("http:sequence:%s,%s,%s", r1, r2, r3)] = true
+		if r1 != "done(true)" || n1 < 1 {
+			viol("C13:transport:http:sequence:first-not-delivered", "a well-formed receiver with headers was not delivered (%s, %d requests)", r1, n1)
+		}
+		if r2 != "done(false)" || n1 > 1 {
+			viol("C13:transport:http:sequence:url-of-previous-receiver", "a receiver without url was reported %s and the endpoint of the PREVIOUS receiver got %d requests: the hand-off went to another task's receiver", r2, n1)
+		}
+		if r3 != "done(true)" || n2 != 1 {
+			viol("C13:transport:http:sequence:third-not-delivered", "the third receiver was not delivered exactly once (%s, %d requests)", r3, n2)
+		}
+		if cred2 != "" {
+			viol("C13:transport:http:sequence:headers-of-previous-receiver", "the request to the third receiver carried the header X-Cred=%q of the first receiver", cred2)
+		}
+	}
 	for o := range outcomes {
 		res.Outcomes = append(res.Outcomes, o)
 	}
 	sort.Strings(res.Outcomes)
-	res.States, res.Transitions = int64(len(items)), res.Executions
+	res.States, res.Transitions = int64(len(items))+1, res.Executions
 	res.Samples = []any{map[string]any{"input": fmt.Sprintf("%s transport, data %s", items[len(items)/2].plugin, items[len(items)/2].data)}}
 	return res
 }
